@@ -10,6 +10,13 @@ import (
 	"golang.org/x/tools/go/ssa"
 )
 
+// debugBind: at block blk the source variable name denoted SSA value v.
+type debugBind struct {
+	name string
+	v    ssa.Value
+	blk  *ssa.BasicBlock
+}
+
 type deferRec struct {
 	instr *ssa.Defer
 	block *ssa.BasicBlock
@@ -56,6 +63,7 @@ type Frame struct {
 	prefix string // anchor prefix for inlined frames
 	debugVars map[string]ssa.Value
 	debugVals map[string]Val
+	debugSrc  []debugBind
 }
 
 // runBody symbolically executes fn from state st under path condition pc.
